@@ -38,6 +38,12 @@ Definition iread (s : istream) (n : Z) (p : path) : res (bytes * istream) :=
 Definition iread_all (s : istream) : bytes * istream :=
   (iavail s, iset_pos s (N.max (ipos s) (nlen (idata s)))).
 
+(* io.BytesIO positions are C ssize_t: an offset or a resulting position beyond it is OverflowError, which
+   stream_seek reports as StreamError.  Only Seek and Pointer pass user-controlled offsets: they use iseek_user /
+   oseek_user; the library's own seeks go back to positions that tell() returned. *)
+Definition pos_max : Z := 9223372036854775807.
+Definition seek_overflows (off cur : Z) : bool := ((pos_max <? off) || (off <? - pos_max - 1) || (pos_max <? cur + off))%Z.
+
 (* stream_seek(stream, offset, whence, path); returns the new absolute position *)
 Definition iseek (s : istream) (off : Z) (whence : Z) (p : path) : res (Z * istream) :=
   if negb (iseekable s) then
@@ -104,3 +110,10 @@ Definition oread (o : ostream) (n : Z) (p : path) : res (bytes * ostream) :=
     let av := if (nlen (odata o) <=? opos o)%N then [] else skipn (N.to_nat (opos o)) (odata o) in
     if (Z.of_nat (length av) <? n)%Z then raise EStream p
     else Ok (firstn (Z.to_nat n) av, mkO (odata o) (opos o + Z.to_N n) (oseekable o)).
+
+Definition iseek_user (s : istream) (off : Z) (whence : Z) (p : path) : res (Z * istream) :=
+  if iseekable s && seek_overflows off (if (whence =? 1)%Z then Z.of_N (ipos s) else if (whence =? 2)%Z then Z.of_nat (length (idata s)) else 0%Z)
+  then raise EStream p else iseek s off whence p.
+Definition oseek_user (o : ostream) (off : Z) (whence : Z) (p : path) : res (Z * ostream) :=
+  if oseekable o && seek_overflows off (if (whence =? 1)%Z then Z.of_N (opos o) else if (whence =? 2)%Z then Z.of_nat (length (odata o)) else 0%Z)
+  then raise EStream p else oseek o off whence p.
